@@ -59,6 +59,7 @@ def run(ck):
         recs = rng.sample(recs, 300)
     for rec in recs:
         replay(ck, em, rec, rng)
+    stored_narrow(ck, em, rng, 12 if quick else 150)
 
 
 def replay(ck, em, rec, rng):
@@ -113,6 +114,28 @@ def replay(ck, em, rec, rng):
         if not np.array_equal(pd, exp_l):
             bad("LabelIsNearest", "predict(dask %s): expected %s, observed %s" % (comp, exp_l.tolist(), pd.tolist()))
             continue
+        # the same samples stored in single precision (when they are exactly representable): the centroids stay double
+        # precision values and the distances are those of the same points
+        X32 = X.astype(np.float32)
+        if np.array_equal(X32.astype(float), X):
+            with dask.config.set(scheduler="synchronous"):
+                Xd32 = da.from_array(X32, chunks=(comp, X.shape[1]))
+                got = {"NumPy float32 batch": (np.asarray(m.transform(X32)) / S2, np.asarray(m.predict(X32))),
+                       "Dask float32 array %s" % (comp,): (np.asarray(m.transform(Xd32).compute()) / S2, np.asarray(dask.compute(m.predict(Xd32))[0])),
+                       "one float32 sample as a Dask array": (np.asarray(m.transform(da.from_array(X32[i], chunks=(X.shape[1],))).compute()) / S2, None)}
+            stop = False
+            for how, (dg, pg) in got.items():
+                want = exp_d if pg is not None else exp_d[:, [i]]
+                if dg.shape != want.shape or not allclose(dg, want):
+                    bad("DistancesAreSquaredEuclidean", "transform(%s): expected %s, observed %s" % (how, want.tolist(), dg.tolist()))
+                    stop = True
+                    break
+                if pg is not None and not np.array_equal(pg, exp_l):
+                    bad("LabelIsNearest", "predict(%s): expected %s, observed %s" % (how, exp_l.tolist(), pg.tolist()))
+                    stop = True
+                    break
+            if stop:
+                continue
         # variances / weights, NumPy and chunked Dask (both memory modes, random task order)
         ok = True
         for mode in ("numpy", "dask-shared", "dask-isolated"):
@@ -176,3 +199,59 @@ def replay(ck, em, rec, rng):
                                                                "detail": "%s: variances %s weights %s, expected %s %s"
                                                                % (mode, v.tolist(), w.tolist(), exp_v.tolist(), exp_w.tolist())})
                 return
+
+
+def stored_narrow(ck, em, rng, count):
+    """KMeansStats.DistancesAreSquaredEuclidean / LabelIsNearest with samples STORED in a narrow type (float32, int16,
+    uint8) far from the origin and double-precision centroids that no narrow type can hold: the reference is the
+    definition sum_j (x_j - c_j)^2 evaluated in double precision on the very numbers stored."""
+    import dask
+    import dask.array as da
+    for i in range(count):
+        seed = rng.randrange(10 ** 6)
+        r = np.random.RandomState(seed)
+        K, D, n = int(r.randint(2, 7)), int(r.randint(1, 4)), int(r.randint(6, 40))
+        dtype = ["float32", "float32", "int16", "uint8"][i % 4]
+        off = {"float32": float(r.choice([0.0, 1e4, -3e4])), "int16": float(r.choice([0.0, 9000.0])), "uint8": 120.0}[dtype]
+        spread = 2.0 if dtype == "float32" else 25.0
+        cent = off + r.normal(size=(K, D)) * spread + r.uniform(-1e-4, 1e-4, size=(K, D))
+        X = (cent[r.randint(0, K, size=n)] + r.normal(size=(n, D)) * spread * 0.6).astype(dtype)
+        ref = ((X.astype(np.float64)[None, :, :] - cent[:, None, :]) ** 2).sum(-1)        # (K, n)
+        srt = np.sort(ref, axis=0)
+        decisive = (srt[1] - srt[0]) > 1e-6 * np.maximum(1.0, srt[1]) if K > 1 else np.ones(n, bool)
+        lab = ref.argmin(axis=0)
+        m = em.KMeansMachine(K)
+        m.centroids_ = cent.copy()
+        cuts = sorted(set(r.randint(1, n, size=r.randint(1, 4)).tolist()))
+        comp = tuple(int(v) for v in np.diff([0] + cuts + [n]))
+        scn = {"seed": seed, "stored_as": dtype, "offset": off, "K": K, "D": D, "n": n, "row_chunks": list(comp)}
+        ck.replayed += 1
+        ck.seen(["narrow", seed, dtype])
+
+        def close(a, b):
+            return a.shape == b.shape and np.all(np.isfinite(a)) and np.all(np.abs(a - b) <= 1e-9 * np.maximum(1.0, np.abs(b)))
+        j = int(r.randint(0, n))
+        with dask.config.set(scheduler="synchronous"):
+            Xd = da.from_array(X, chunks=(comp, D))
+            forms = [("NumPy batch", np.asarray(m.transform(X), dtype=float), np.asarray(m.predict(X)), ref, lab, decisive),
+                     ("Dask array", np.asarray(m.transform(Xd).compute(), dtype=float), np.asarray(dask.compute(m.predict(Xd))[0]), ref, lab, decisive),
+                     ("one sample", np.asarray(m.transform(X[j]), dtype=float), np.asarray(m.predict(X[j])), ref[:, [j]], lab[[j]], decisive[[j]]),
+                     ("one sample as a Dask array", np.asarray(m.transform(da.from_array(X[j], chunks=(D,))).compute(), dtype=float),
+                      None, ref[:, [j]], None, None)]
+        ok = True
+        for how, d, p, rd, rl, dec in forms:
+            if not close(d, rd):
+                ck.violation("M2:KMeansStats:DistancesAreSquaredEuclidean", {"mechanism": "M2", "module": "KMeansStats", "scenario": scn,
+                             "detail": "transform(%s of %s samples): largest relative error %.3e" % (
+                                 how, dtype, float(np.max(np.abs(d - rd) / np.maximum(1.0, np.abs(rd)))) if d.shape == rd.shape else float("inf")),
+                             "centroids": cent.tolist(), "samples": X.tolist()})
+                ok = False
+                break
+            if p is not None and not np.array_equal(np.asarray(p).ravel()[dec], rl[dec]):
+                ck.violation("M2:KMeansStats:LabelIsNearest", {"mechanism": "M2", "module": "KMeansStats", "scenario": scn,
+                             "detail": "predict(%s of %s samples): %s, nearest centroids %s" % (how, dtype, np.asarray(p).tolist(), rl.tolist()),
+                             "centroids": cent.tolist(), "samples": X.tolist()})
+                ok = False
+                break
+        if ok:
+            ck.sample({"mechanism": "M2", "stored_narrow": scn, "verdict": "ok"}, limit=3)
